@@ -33,6 +33,11 @@ AggOK(t) == ~Has(t, "agg") \/ \A i \in DOMAIN t.agg :
               ELSE \A k \in DOMAIN a.obs :          \* single-iteration mode walks the batches cyclically
                       RatEq(a.obs[k], BatchExpected(t, a, ((k - 1) % Len(t.batches)) + 1))
 
+\* after the data set's batch size was changed, the SAME condition aggregates the batches presented now
+PD_Vals2(t) == [i \in DOMAIN t.batches2 |-> [k \in DOMAIN t.batches2[i].br |-> Abs_(Sc(t).d[t.batches2[i].br[k] + 1])]]
+Agg2OK(t) == ~Has(t, "batches2") \/ \A i \in DOMAIN t.agg :
+               LET a == t.agg[i] IN
+               a.obs2 = <<>> \/ RatEq(a.obs2[1], IF a.norm = 0 THEN AggInf(PD_Vals2(t)) ELSE AggMean(PD_Vals2(t), a.norm))
 PD_Check(t) ==
     LET s == Sc(t)  ep == PD_Ep(t) IN
     IF ~PD_Pair(t) THEN "PairOK"
@@ -40,6 +45,7 @@ PD_Check(t) ==
     ELSE IF ~(PD_CoverOK(ep, s.Nb, s.bb, s.drop) /\ PD_DropOK(ep, s.bb, s.drop)) THEN "CoverOK"
     ELSE IF t.len # Len(ep) THEN "LenOK"
     ELSE IF Len(ep) > 0 /\ ~AggOK(t) THEN "AggOK"
+    ELSE IF Len(ep) > 0 /\ ~Agg2OK(t) THEN "AggOK-after-rebatching"
     ELSE "ok"
 
 \* ---------- DeepONet loaders
